@@ -654,6 +654,8 @@ def features(p, acc):
         for n, x in p[3]:
             features(x, acc)
     elif k == 'or':
+        if all(a[0] in ('lit', 'val') for a in p[1]):
+            acc.add('or-of-values')
         for a in p[1]:
             features(a, acc)
     elif k == 'as':
